@@ -58,8 +58,11 @@ def c02(tier):
     s = run.seed
     defs = F.curated() + F.random_family(1100 + s, sizes(tier, 60, 600), nmax=4)
     run.add_jobs(jobs_for(defs, {"pause": 1, "cancel": 1, "max_nodes": sizes(tier, 1500, 5000)}, s))
+    e2 = F.with_e2(F.curated()[:10] + F.curated_items()[:11])
+    run.add_jobs(jobs_for(e2, {"pause": 1, "cancel": 1, "sample": sizes(tier, 3, 5), "max_nodes": sizes(tier, 1200, 6000)}, s))
     return run.finish("model_checking",
-                      "definitions x outcomes x report orders x every placement of one pause(+resume) and one cancel",
+                      "definitions x outcomes x report orders x every placement of one pause(+resume) and one cancel; "
+                      "E2 alphabet (actions that pause/cancel themselves, go pending, time out) on curated shapes incl. with-items",
                       ASSUME_COMMON)
 
 
@@ -69,6 +72,10 @@ def c03(tier):
     s = run.seed
     defs = F.curated() + F.random_family(1200 + s, sizes(tier, 60, 600), nmax=4)
     run.add_jobs(jobs_for(defs, {"pause": 1, "cancel": 1, "max_nodes": sizes(tier, 1500, 5000)}, s))
+    more = F.curated_items() + F.curated_retry()
+    run.add_jobs(jobs_for(more, {"pause": 1, "cancel": 1, "max_nodes": sizes(tier, 800, 5000)}, s, tok="visit"))
+    e2 = F.with_e2(F.curated()[:10] + F.curated_items()[:11])
+    run.add_jobs(jobs_for(e2, {"pause": 1, "cancel": 1, "sample": sizes(tier, 3, 5), "max_nodes": sizes(tier, 1200, 6000)}, s))
     return run.finish("model_checking",
                       "every quiescent point (query answered empty, nothing in flight) of the explored trees",
                       ASSUME_COMMON)
@@ -187,6 +194,51 @@ def c05(tier):
                       ASSUME_COMMON + ["persist points are sampled (all, single, random subsets), not all 2^n subsets"])
 
 
+@reg("C12")
+def c12(tier):
+    run = P.Run("C12", tier, ["C12_"])
+    s = run.seed
+    defs = F.curated_items() + F.random_family(2100 + s, sizes(tier, 50, 500), nmax=3, items=True)
+    run.add_mc(F.curated_items(), ["C12"], max_pause=1, max_cancel=(0 if tier == "quick" else 1), max_steps=16,
+               replay=True)
+    run.add_jobs(jobs_for(defs, {"pause": 1, "cancel": 1, "max_nodes": sizes(tier, 1500, 6000)}, s, ("yaql", "jinja"), tok="visit"))
+    return run.finish("model_checking",
+                      "with-items tasks (n in 0..4, concurrency absent/1/2/0/expression; alone, in a branch, as join "
+                      "target, parallel, with retry) x item outcome vectors x all report orders x pause/cancel placements",
+                      ASSUME_COMMON + ["the provider accumulates item results (as StackStorm does); whole-batch item starts only"])
+
+
+@reg("C13")
+def c13(tier):
+    run = P.Run("C13", tier, ["C13_"])
+    s = run.seed
+    defs = F.curated_retry() + F.random_family(2200 + s, sizes(tier, 60, 600), nmax=3, retry=True)
+    run.add_mc(F.curated_retry(), ["C13"], max_pause=1, max_cancel=(0 if tier == "quick" else 1), max_steps=16, replay=True)
+    run.add_jobs(jobs_for(defs, {"pause": 1, "cancel": 1, "max_nodes": sizes(tier, 1500, 6000)}, s, ("yaql", "jinja"), tok="visit"))
+    return run.finish("model_checking",
+                      "retry count 1..2 (+ retry command), condition default/completed/succeeded/failed, delay, in "
+                      "sequence/branch/join/with-items x outcome sequences x sibling interleavings x pause/cancel",
+                      ASSUME_COMMON)
+
+
+@reg("conform")
+def conform(tier):
+    """Not a property: code -> spec conformance of Spec B over all families (divergences must be 0)."""
+    run = P.Run("conform", tier, [], conform=True)
+    s = run.seed
+    n = sizes(tier, 40, 300)
+    run.add_jobs(jobs_for(F.curated() + F.random_family(7 + s, n, nmax=4) + F.random_family(8 + s, n // 2, nmax=4, publish=True),
+                          {"pause": 1, "cancel": 1, "max_nodes": 800}, s, ("yaql", "jinja"), tok="visit"))
+    run.add_jobs(jobs_for(F.curated_items() + F.random_family(17 + s, n // 2, nmax=3, items=True) +
+                          F.curated_retry() + F.random_family(18 + s, n // 2, nmax=3, retry=True),
+                          {"pause": 1, "cancel": 1, "max_nodes": 800}, s, ("yaql", "jinja"), tok="visit"))
+    run.add_jobs(jobs_for(F.with_e2(F.curated()[:10] + F.curated_items()[:11]),
+                          {"pause": 1, "cancel": 1, "sample": 3, "max_nodes": 1500}, s))
+    print("conformance: steps=%d divergences=%d" % (run.conform_nodes, run.divergences))
+    rc = run.finish("model_checking", "every explored step compared with Spec B's transition function", ASSUME_COMMON)
+    return 2 if run.divergences else (0 if rc in (0, 1) else rc)
+
+
 def replay(prop, path):
     """Re-run one recorded violation on the current tree and print the failing clauses."""
     from . import explore as X
@@ -200,7 +252,10 @@ def replay(prop, path):
     run = P.Run(prop, "quick", [prop + "_"])
     batch = os.path.join(run.tmp, "replay.json")
     with open(batch, "w") as f:
-        json.dump([tree.to_json(1)], f)
+        tj = tree.to_json(1)
+        tj["own"] = [prop]
+        tj["known"] = []
+        json.dump([tj], f)
     res = tlc.run("Trace", env={"TRACE_FILE": batch}, workers=1)
     vs = tlc.verdicts(res["out"], "V")
     run.close()
